@@ -36,42 +36,75 @@ package anomaly
 //@   ensures #exp: d.expiration == (d.state == StateAnomaly ? now + d.timeout : 0)
 //@   modifies d.counter, d.expiration
 
-// State change without a listener (LowNodeLoad never installs OnStateChange).
+// The three function-typed fields (anomalyConditionFn, normalConditionFn, onStateChange) are consulted as
+// observers: they do not write detector state (LowNodeLoad installs two pure closures and no listener).
+// Their answers cannot be named in a later clause; what is stated is when they are consulted, with which
+// counter, and that a state change happens only right after consulting them (or on expiry).
 //@ func (*BasicDetector).setState [C18]
+//@   option observers onStateChange
 //@   requires d != nil
-//@   ensures #same: old(d.state) == state ==> d.state == old(d.state) && d.counter == old(d.counter) && d.expiration == old(d.expiration) && d.onStateChange == old(d.onStateChange)
-//@   ensures #state: old(d.onStateChange) == nil ==> d.state == state
-//@   ensures #newgen: old(d.onStateChange) == nil && old(d.state) != state ==> zeroCounter(d) && d.expiration == (state == StateAnomaly ? now + d.timeout : 0)
+//@   ensures #state: d.state == state
+//@   ensures #same: old(d.state) == state ==> d.counter == old(d.counter) && d.expiration == old(d.expiration)
+//@   ensures #samecalls: old(d.state) == state ==> calls("onStateChange") == 0
+//@   ensures #newgen: old(d.state) != state ==> zeroCounter(d) && d.expiration == (state == StateAnomaly ? now + d.timeout : 0)
+//@   modifies d.state, d.counter, d.expiration
 
 //@ func (*BasicDetector).Reset [C18]
 //@   requires detOK(d)
-//@   ensures #ok: old(d.onStateChange) == nil ==> d.state == StateOK && d.expiration.IsZero()
-//@   ensures #cleared: old(d.onStateChange) == nil && old(d.state) == StateAnomaly ==> zeroCounter(d)
+//@   ensures #ok: d.state == StateOK && d.expiration.IsZero()
+//@   ensures #cleared: old(d.state) == StateAnomaly ==> zeroCounter(d)
 //@   ensures #noop: old(d.state) == StateOK ==> d.counter == old(d.counter)
+//@   modifies d.state, d.counter, d.expiration
 
-// The anomaly -> ok decision on the not-yet-expired path goes through d.normalConditionFn, a
-// function-typed field: the engine havocs that call, so only the other paths are specified.
 //@ func (*BasicDetector).currentState [C18]
+//@   option observers normalConditionFn
 //@   requires d != nil
+//@   assert before call normalConditionFn: #consulted: old(d.state) == StateAnomaly && old(d.expiration) >= now && $arg0 == old(d.counter)
 //@   ensures #res: result == d.state
-//@   ensures #ok: old(d.state) == StateOK && old(d.expiration.IsZero()) ==> d.state == StateOK && d.counter == old(d.counter) && d.expiration == old(d.expiration) && d.onStateChange == old(d.onStateChange)
+//@   ensures #ok: old(d.state) == StateOK && old(d.expiration.IsZero()) ==> d.state == StateOK && d.counter == old(d.counter) && d.expiration == old(d.expiration)
+//@   ensures #okcalls: old(d.state) == StateOK && old(d.expiration.IsZero()) ==> calls("normalConditionFn") == 0
 //@   ensures #okexpired: old(d.state) == StateOK && !old(d.expiration.IsZero()) && old(d.expiration) < now ==> d.state == StateOK && zeroCounter(d) && d.expiration.IsZero()
-//@   ensures #expired: old(d.state) == StateAnomaly && old(d.expiration) < now && old(d.onStateChange) == nil ==> d.state == StateOK && zeroCounter(d) && d.expiration.IsZero()
+//@   ensures #expired: old(d.state) == StateAnomaly && old(d.expiration) < now ==> d.state == StateOK && zeroCounter(d) && d.expiration.IsZero()
+//@   ensures #expiredcalls: old(d.state) == StateAnomaly && old(d.expiration) < now ==> calls("normalConditionFn") == 0
+//@   ensures #live: old(d.state) == StateAnomaly && old(d.expiration) >= now ==> ((d.state == StateAnomaly && d.counter == old(d.counter) && d.expiration == old(d.expiration)) || (d.state == StateOK && zeroCounter(d) && d.expiration.IsZero()))
+//@   ensures #livecalls: old(d.state) == StateAnomaly && old(d.expiration) >= now ==> calls("normalConditionFn") == 1
+//@   modifies d.state, d.counter, d.expiration
 
 //@ func (*BasicDetector).onNormality [C18]
+//@   option observers normalConditionFn
 //@   requires d != nil
+//@   assert before call normalConditionFn: #consulted: state == StateAnomaly && $arg0.ConsecutiveNormalities == old(d.counter.ConsecutiveNormalities) + 1 && $arg0.ConsecutiveAbnormalities == 0
 //@   ensures #ok: state == StateOK ==> d.counter.ConsecutiveNormalities == old(d.counter.ConsecutiveNormalities) + 1 && d.counter.ConsecutiveAbnormalities == 0 && d.counter.TotalNormalities == old(d.counter.TotalNormalities) + 1 && d.counter.TotalDetects == old(d.counter.TotalDetects) && d.state == old(d.state) && d.expiration == old(d.expiration)
+//@   ensures #okcalls: state == StateOK ==> calls("normalConditionFn") == 0
+//@   ensures #anomaly: state == StateAnomaly && old(d.state) == StateAnomaly ==> ((d.state == StateAnomaly && d.counter.ConsecutiveNormalities == old(d.counter.ConsecutiveNormalities) + 1 && d.counter.ConsecutiveAbnormalities == 0 && d.expiration == old(d.expiration)) || (d.state == StateOK && zeroCounter(d) && d.expiration.IsZero()))
+//@   ensures #anomalycalls: state == StateAnomaly && old(d.state) == StateAnomaly ==> calls("normalConditionFn") == 1
+//@   modifies d.state, d.counter, d.expiration
 
+// ok -> anomaly: the only way into the anomaly state is an abnormal mark in the ok state, right after
+// anomalyConditionFn was consulted with the incremented consecutive-abnormalities counter.
 //@ func (*BasicDetector).onAbnormalities [C18]
+//@   option observers anomalyConditionFn
 //@   requires d != nil
+//@   assert before call anomalyConditionFn: #consulted: state == StateOK && $arg0.ConsecutiveAbnormalities == old(d.counter.ConsecutiveAbnormalities) + 1 && $arg0.ConsecutiveNormalities == 0
+//@   assert before call setState: #onlyanomaly: $arg0 == StateAnomaly
 //@   ensures #anomaly: state == StateAnomaly && old(d.state) == StateAnomaly ==> d.counter.ConsecutiveAbnormalities == old(d.counter.ConsecutiveAbnormalities) + 1 && d.counter.ConsecutiveNormalities == 0 && d.counter.TotalAbnormalities == old(d.counter.TotalAbnormalities) + 1 && d.state == StateAnomaly && d.expiration == old(d.expiration)
+//@   ensures #anomalycalls: state == StateAnomaly && old(d.state) == StateAnomaly ==> calls("anomalyConditionFn") == 0
+//@   ensures #ok: state == StateOK && old(d.state) == StateOK ==> ((d.state == StateOK && d.counter.ConsecutiveAbnormalities == old(d.counter.ConsecutiveAbnormalities) + 1 && d.counter.ConsecutiveNormalities == 0 && d.counter.TotalAbnormalities == old(d.counter.TotalAbnormalities) + 1 && d.counter.TotalDetects == old(d.counter.TotalDetects) && d.expiration == old(d.expiration)) || (d.state == StateAnomaly && zeroCounter(d) && d.expiration == now + d.timeout))
+//@   ensures #okcalls: state == StateOK && old(d.state) == StateOK ==> calls("anomalyConditionFn") == 1
+//@   modifies d.state, d.counter, d.expiration
 
 //@ func (*BasicDetector).Mark [C18]
-//@   requires detOK(d)
+//@   requires detOK(d) && d.timeout > 0
 //@   ensures #noerr: result1 == nil
-//@   ensures #normal: old(d.state) == StateOK && normality ==> result0 == StateOK && d.state == StateOK && d.counter.ConsecutiveNormalities == old(d.counter.ConsecutiveNormalities) + 1 && d.counter.ConsecutiveAbnormalities == 0 && d.counter.TotalDetects == old(d.counter.TotalDetects) + 1 && d.expiration.IsZero()
+//@   ensures #res: result0 == d.state
+//@   ensures #normal: old(d.state) == StateOK && normality ==> result0 == StateOK && d.counter.ConsecutiveNormalities == old(d.counter.ConsecutiveNormalities) + 1 && d.counter.ConsecutiveAbnormalities == 0 && d.counter.TotalDetects == old(d.counter.TotalDetects) + 1 && d.expiration.IsZero()
+//@   ensures #abnormal: old(d.state) == StateOK && !normality ==> (result0 == StateOK && d.counter.ConsecutiveAbnormalities == old(d.counter.ConsecutiveAbnormalities) + 1 && d.counter.ConsecutiveNormalities == 0 && d.counter.TotalDetects == old(d.counter.TotalDetects) + 1) || zeroCounter(d)
+//@   ensures #sticky: old(d.state) == StateAnomaly && !normality ==> result0 == StateAnomaly || zeroCounter(d) || d.counter.ConsecutiveAbnormalities == 1
+//@   ensures #inv: detOK(d)
+//@   modifies d.state, d.counter, d.expiration
 
 //@ func (*BasicDetector).State [C18]
 //@   requires detOK(d)
 //@   ensures #res: result == d.state
 //@   ensures #ok: old(d.state) == StateOK ==> result == StateOK && d.counter == old(d.counter)
+//@   modifies d.state, d.counter, d.expiration
